@@ -214,6 +214,10 @@ def afb1d_atrous(x, h0, h1, mode='periodic', dim=-1, dilation=1):
         h1 = h1.reshape(*shape)
     h = torch.cat([h0, h1] * C, dim=0)
 
+    # The undecimated transform is periodic: periodization is periodic padding
+    if mode == 'per' or mode == 'periodization':
+        mode = 'periodic'
+
     # Calculate the pad size
     L2 = (L * dilation)//2
     pad = (0, 0, L2-dilation, L2) if d == 2 else (L2-dilation, L2, 0, 0)
@@ -517,6 +521,8 @@ def afb2d_atrous(x, filts, mode='periodization', dilation=1):
 
     lohi = afb1d_atrous(x, h0_row, h1_row, mode=mode, dim=3, dilation=dilation)
     y = afb1d_atrous(lohi, h0_col, h1_col, mode=mode, dim=2, dilation=dilation)
+    s = y.shape
+    y = y.reshape(s[0], -1, 4, s[-2], s[-1])
 
     return y
 
